@@ -83,7 +83,7 @@ def prepare(case: Dict[str, Any], base: Any, ctx: Any, fails: List[Tuple[str, st
     if p.schema is None:
         return None
     try:
-        p.rm = refmodel.load(p.text)
+        p.rm = refmodel.load(mmgen.render(p.spec, canonical=True))  # bases first: the text is executed
     except BaseException:  # noqa
         if ctx is not None:
             ctx.exclude("reference-exec-failed")
